@@ -89,4 +89,20 @@ Theorem c07_drain_progress : forall (c : cfg) (s : st),
   exists a s', a <> PTick /\ step c s a = Some s'.
 Proof. exact Mechanisms.K.drain_progress. Qed.
 Print Assumptions c07_drain_progress.
+
+(* KNOWN FINDING K1 - the liveness half of "keeps being re-run" is REFUTED for the mechanism as it is: the sender does
+   a blocking send on the capacity-1 channel after every run, passing ones included.  From any reachable state, along
+   any step sequence in which the consumer makes no receiving poll, no drain step, no cancel and no scope exit (this
+   is what happens while one long sequence executes), at most `free s` <= 1 sends complete; once that is used up the
+   buffer is full and a sender standing at its next send has NO enabled step: only the consumer can unblock it.  So
+   after the initial run at most two further runs happen (one sent, one stuck in its send) until the next sequence
+   boundary; a failure due at a later run does not happen.  The driver replays the witness on the implementation
+   (harness/cmd/c07k1: 3 invocations where 30 are due, scope Completed) and prints the KNOWN-FINDING line. *)
+Theorem c07_keeps_rerunning_refuted : forall (c : cfg) (s : st) (acts : list act) (s' : st),
+  reach c s -> forallb no_reader acts = true -> exec c s acts = Some s' ->
+  sends acts <= free s /\ sends acts <= 1 /\
+  (sends acts = free s -> buf s' <> None) /\
+  (forall v, buf s' <> None -> prod s' = PSend v -> forall a, is_producer a = true -> step c s' a = None).
+Proof. exact Mechanisms.K.c07_mech_sender_stalls. Qed.
+Print Assumptions c07_keeps_rerunning_refuted.
 End Mech.
